@@ -31,11 +31,15 @@
 (* everything below it plus its own unmetered load.  A formula is a signed    *)
 (* multiset of component ids (vector id -> Int) and denotes the linear form   *)
 (* obtained by substituting the readings.                                     *)
-EXTENDS Integers, Sequences, FiniteSets, TLC, Json, CSV, IOUtils
+EXTENDS Integers, Sequences, SequencesExt, FiniteSets, TLC, Json, CSV, IOUtils
 
 CONSTANTS MinN, MaxN,   \* graph sizes enumerated (number of nodes incl. the grid)
           ShardK, ShardI,  \* only category vectors with Code mod ShardK = ShardI (1, 0: all of them)
-          Shape, ShapeCats,  \* "any": every graph; "twomixed": targeted stage -- nodes 2 and 3 are meters,
+          BatWiring,    \* "own": every battery inverter has exactly its own battery (id 100+i);
+                        \* "any": every wiring of the battery inverters to battery slots (their own
+                        \* slots plus one more) with at least one battery each -- a battery may be fed by
+                        \* several inverters and an inverter may feed several batteries
+          Shape, ShapeCats,  \* "any": every graph; "wired": every graph whose battery wiring is not the own one; "twomixed": targeted stage -- nodes 2 and 3 are meters,
                         \* the others range over ShapeCats, and only graphs satisfying TwoMixed are chosen
           CandN         \* for n <= CandN every candidate tree is enumerated and filtered by the
                         \* transcribed rules (rejected ones are emitted too); above, candidates are
@@ -44,10 +48,12 @@ CONSTANTS MinN, MaxN,   \* graph sizes enumerated (number of nodes incl. the gri
 VARIABLES n,        \* number of nodes
           cat,      \* node -> category
           parent,   \* node -> predecessor (0 for the grid); <<>> before a topology is chosen
+          wire,     \* node -> set of battery slots connected below it ({} unless a battery inverter;
+                    \* slot b is battery id 100+b in the real graph); <<>> before a topology is chosen
           pc,       \* "topology", then the formula names in call order, "done" | "rejected"
           gen       \* formula name -> generated formula (Pending before its generator ran)
 
-vars == <<n, cat, parent, pc, gen>>
+vars == <<n, cat, parent, wire, pc, gen>>
 
 DeviceCats == {"BATINV", "PVINV", "EV", "CHP"}
 Cats == {"METER"} \cup DeviceCats
@@ -188,9 +194,22 @@ GenProducer ==
     IF C = {} THEN ZeroFormula ELSE FromMapping(C)
 
 (* _battery_power_formula.py, component_ids = all batteries (BatteryPool.power) *)
+AllBats == UNION {wire[i] : i \in Nodes}
+InvOf(b) == {i \in Nodes : b \in wire[i]}                \* battery-inverter predecessors of battery b
+\* generate() with component_ids = B: the keys of inv_bat_mapping ...
+BatInvSet(B) == UNION {InvOf(b) : b \in B}
+\* ... or FormulaGenerationError "Not all batteries behind inverter .. are requested"
+BatRefuses(B) == \E i \in BatInvSet(B) : ~(wire[i] \subseteq B)
+\* _get_fallback_formulas: the fallback of primary p is BatteryPowerFormula(component_ids = the
+\* batteries of p's fallback inverters, allow_fallback=False) -- it goes from the inverters to their
+\* batteries and BACK to all inverters of those batteries (a raise is recorded as the zero formula)
+BatFb(C, p) == LET B == UNION {wire[i] : i \in FallbackOf(C, p)} IN
+               IF BatRefuses(B) THEN ZeroVec ELSE Ind(BatInvSet(B))
 GenBattery ==
-    LET C == {i \in Nodes : cat[i] = "BATINV"} IN
-    IF C = {} THEN ZeroFormula ELSE FromMapping(C)
+    IF AllBats = {} THEN ZeroFormula
+    ELSE LET C == BatInvSet(AllBats) IN
+         [ok |-> TRUE, coef |-> Ind(Primaries(C)),
+          fb |-> [p \in Nodes |-> IF p \in Primaries(C) /\ FallbackOf(C, p) # {} THEN BatFb(C, p) ELSE <<>>]]
 
 (* _pv_power_formula.py, component_ids = all PV inverters (PVPool.power) ...   *)
 GenPVDfs ==
@@ -294,6 +313,17 @@ Dev_MixedMeterAsConsumerWithoutGridMeter(Fcons) == CauseMixedMeter /\ Fcons = Le
 (* Known deviation of the code (KF-C12-3): CHPPowerFormula._get_chp_meters takes ANY meter whose    *)
 (* successors are all CHPs as the CHPs' dedicated meter, also the grid meter (is_chp_meter and     *)
 (* ProducerPowerFormula exclude it), so unmetered load at the grid meter is counted as CHP power. *)
+(* Known deviation of the code (KF-C12-4): the fallback of a battery meter is generated from the   *)
+(* BATTERY ids of the inverters below the meter, and BatteryPowerFormula maps battery ids back to   *)
+(* ALL inverters feeding those batteries.  When a battery below the meter is also fed by an inverter *)
+(* that is not below that meter, the fallback counts the foreign inverter too (which the primary    *)
+(* formula already counts elsewhere), or its generator raises because the foreign inverter has      *)
+(* further batteries.                                                                               *)
+CauseSharedBatteryFallback ==
+    AllBats # {} /\ LET C == BatInvSet(AllBats) IN
+        \E p \in Primaries(C) : FallbackOf(C, p) # {} /\ BatFb(C, p) # Ind(FallbackOf(C, p))
+Dev_SharedBatteryFallback(Fbat) == CauseSharedBatteryFallback /\ Fbat = GenBattery
+
 CauseGridMeterAsChpMeter == ~ChpRefusal /\ \E c \in ChpSet : IsGridMeter(parent[c])
 Dev_GridMeterAsChpMeter(Fchp) == CauseGridMeterAsChpMeter /\ Fchp = GenCHP
 
@@ -311,6 +341,16 @@ Allowed(k) == {j \in 1..(k - 1) : /\ cat[j] \in {"GRID", "METER"}
 RECURSIVE DomainParents(_)
 DomainParents(k) == IF k = 1 THEN {<<0>>}
                     ELSE {Append(p, j) : p \in DomainParents(k - 1), j \in Allowed(k)}
+
+\* battery wiring
+BatInvs == {i \in Nodes : cat[i] = "BATINV"}
+OwnWire == [i \in Nodes |-> IF i \in BatInvs THEN {i} ELSE {}]
+Slots == BatInvs \cup (IF BatInvs # {} THEN {n + 1} ELSE {})
+Wirings == IF BatWiring = "own" THEN {OwnWire}
+           ELSE {[i \in Nodes |-> IF i \in BatInvs THEN f[i] ELSE {}] :
+                    f \in [BatInvs -> (SUBSET Slots) \ {{}}]}
+SharedBattery == \E i, j \in Nodes : i # j /\ wire[i] \cap wire[j] # {}
+MultiBattery == \E i \in Nodes : Cardinality(wire[i]) >= 2
 
 NoGen == [nm \in Names |-> Pending]
 
@@ -330,29 +370,40 @@ VecCode(v) == LET s[k \in 0..Len(v)] == IF k = 0 THEN 0 ELSE s[k - 1] + k * CatC
 
 Init ==
     /\ n \in MinN..MaxN
-    /\ cat \in {v \in (IF Shape = "any" THEN CatVectors(n) ELSE ShapeVectors(n)) : VecCode(v) % ShardK = ShardI}
-    /\ parent = <<>> /\ pc = "topology" /\ gen = NoGen
+    /\ cat \in {v \in (IF Shape = "twomixed" THEN ShapeVectors(n) ELSE CatVectors(n)) : VecCode(v) % ShardK = ShardI}
+    /\ parent = <<>> /\ wire = <<>> /\ pc = "topology" /\ gen = NoGen
 
 \* antecedent flags of the clauses, emitted with every graph (counted by the harness: vacuity)
 Flags == [gm |-> AreGridMeters, dev |-> CauseMixedMeter,
           chpref |-> ChpRefusal,
           fb |-> \E nm \in Names \ {"chp", "ev"} : \E p \in Nodes : Generate(nm).fb[p] # <<>>,
           load |-> \E m \in Nodes : HasLoad(m),
+          shared |-> SharedBattery, multi |-> MultiBattery, sharedfb |-> CauseSharedBatteryFallback,
           nested |-> \E m \in Nodes : cat[m] = "METER" /\ parent[m] # 0 /\ cat[parent[m]] = "METER"]
 
-ChooseTopology ==
+\* the same set as a predicate (the trace specification tests a recorded wiring with it)
+WiringOK(w) == /\ \A i \in Nodes : IF i \in BatInvs THEN w[i] # {} /\ w[i] \subseteq Slots ELSE w[i] = {}
+               /\ (BatWiring = "own" => w = OwnWire)
+
+ChooseTopologyW(w) ==
     /\ pc = "topology"
     /\ UNCHANGED <<n, cat, gen>>
     /\ parent' \in (IF n <= CandN THEN AllParents(n) ELSE DomainParents(n))
+    /\ wire' = w
     /\ ValidationOK' /\ InDomain'
-    /\ (Shape = "any" \/ TwoMixed')
+    /\ (Shape = "twomixed" => TwoMixed')
+    /\ (Shape = "wired" => wire' # OwnWire)      \* the own wirings are the other stages' business
     /\ pc' = "grid"
-    /\ Emit([k |-> "graph", n |-> n, cat |-> cat, parent |-> parent', flags |-> Flags'])
+    /\ Emit([k |-> "graph", n |-> n, cat |-> cat, parent |-> parent',
+             wire |-> [i \in Nodes |-> SetToSeq(wire'[i])], flags |-> Flags'])
+
+ChooseTopology == \E w \in Wirings : ChooseTopologyW(w)
 
 RejectTopology ==
     /\ pc = "topology" /\ n <= CandN
     /\ UNCHANGED <<n, cat, gen>>
     /\ parent' \in AllParents(n)
+    /\ wire' = OwnWire
     /\ ~(ValidationOK' /\ InDomain')
     /\ pc' = "rejected"
     /\ Emit([k |-> "cand", n |-> n, cat |-> cat, parent |-> parent', valid |-> ValidationOK'])
@@ -365,7 +416,7 @@ NextPc(name) ==
 Call(name, F) ==
     /\ gen' = [gen EXCEPT ![name] = F]
     /\ pc' = NextPc(name)
-    /\ UNCHANGED <<n, cat, parent>>
+    /\ UNCHANGED <<n, cat, parent, wire>>
 
 GenGridStep == pc = "grid" /\ Call("grid", GenGrid)
 GenConsumerStep == pc = "cons" /\ Call("cons", GenConsumer)
@@ -403,7 +454,12 @@ CHPTotal == Has("chp") => (TotalOK("chp", gen["chp"]) \/ Dev_GridMeterAsChpMeter
 \* ... exact: the CHP formula is wrong exactly where the cause holds
 ChpDevIsTight == Has("chp") => (CauseGridMeterAsChpMeter <=> ~TotalOK("chp", gen["chp"]))
 Generated == \A nm \in Names : Has(nm) => GeneratedOK(nm, gen[nm])
-FallbackEqualsPrimary == \A nm \in Names : Has(nm) => FallbackOK(gen[nm])
+FallbackEqualsPrimary == \A nm \in Names : Has(nm) =>
+    (FallbackOK(gen[nm]) \/ (nm = "bat" /\ Dev_SharedBatteryFallback(gen[nm])))
+\* ... exact: the battery fallbacks are wrong exactly where the cause holds
+SharedBatDevIsTight == Has("bat") => (CauseSharedBatteryFallback <=> ~FallbackOK(gen["bat"]))
+\* with one own battery per inverter the cause never holds
+OwnWiringHasNoSharedCause == (Chosen /\ wire = OwnWire) => ~CauseSharedBatteryFallback
 Balance == pc = "done" =>
     \/ BalanceOK(gen["grid"], gen["cons"], gen["prod"], gen["bat"], gen["ev"])
     \/ Dev_MixedMeterAsConsumerWithoutGridMeter(gen["cons"])
